@@ -120,7 +120,7 @@ WF = [('wf', 'wf(old(self).cache@, old(self).order@)')]
 
 GET_ENS = [
     CFG_FRAME,
-    ('post_wf', ['C04', 'C06', 'C13', 'C01', 'C03', 'C09', 'C10', 'C11'], 'wf(%s, final(self).order@)' % M1),
+    ('post_wf', ['C04', 'C06', 'C13', 'C01', 'C03', 'C09', 'C10', 'C11', 'C05', 'C07', 'C08'], 'wf(%s, final(self).order@)' % M1),
     ('never_serves_expired', ['C06'], 'res is Some ==> %s.contains_key(%s) && !aexpired(%s[%s], old(self).ttl)' % (M0, K, M0, K)),
     ('value_of_key', ['C01'], 'res is Some ==> cloned(%s[%s].0, res->Some_0)' % (M0, K)),
     ('serves_unexpired', ['C03', 'C06'], '%s.contains_key(%s) && !aexpired(%s[%s], old(self).ttl) ==> res is Some' % (M0, K, M0, K)),
@@ -162,7 +162,7 @@ EVICT_REQ = [('wf', 'wf(old(cache)@, old(order)@)'),
              ('tlru_cfg', 'policy is TLRU ==> tlru_cfg_ok(ttl, frequency_weight)'),
              ('front_stored', 'old(order)@.len() > 0 ==> old(cache)@.contains_key(old(order)@[0]) && old(order)@.contains(old(order)@[0])')]
 EVICT_ENS = [
-    ('post_wf', ['C04', 'C01', 'C03', 'C09', 'C10', 'C11'], 'wf(final(cache)@, final(order)@)'),
+    ('post_wf', ['C04', 'C01', 'C03', 'C09', 'C10', 'C11', 'C05', 'C07', 'C08', 'C13'], 'wf(final(cache)@, final(order)@)'),
     ('survivors_unchanged', ['C01'], 'forall|x: String| #[trigger] final(cache)@.contains_key(x) ==> old(cache)@.contains_key(x) && final(cache)@[x] == old(cache)@[x]'),
     ('queue_shrinks', ['C04', 'C07'], 'final(order)@.len() <= old(order)@.len() && forall|x: String| #[trigger] final(order)@.contains(x) ==> old(order)@.contains(x)'),
     ('no_overflow_noop', ['C04', 'C03'], '(limit is None || old(cache)@.len() < limit->Some_0) ==> final(cache)@ == old(cache)@ && final(order)@ == old(order)@'),
@@ -177,7 +177,7 @@ NEW = '(value, spec_clock_secs(), 0u64)'
 REPL = '(%s.contains_key(%s) && old(self).max_memory is None)' % (M0, K)
 INSERT_ENS = [
     CFG_FRAME,
-    ('post_wf', ['C04', 'C13', 'C01', 'C03', 'C09', 'C10', 'C11'], 'wf(%s, final(self).order@)' % M1),
+    ('post_wf', ['C04', 'C13', 'C01', 'C03', 'C09', 'C10', 'C11', 'C05', 'C07', 'C08'], 'wf(%s, final(self).order@)' % M1),
     ('stats_frame', ['C15'], 'final(self).stats == old(self).stats'),
     ('last_store_wins', ['C01', 'C11', 'C03', 'C09', 'C10'], '%s.contains_key(%s) && %s[%s] == %s' % (M1, K, M1, K, NEW)),
     ('fits_exact', ['C04', 'C03', 'C20'], '(%s || old(self).limit is None || %s.len() < old(self).limit->Some_0) ==> '
@@ -197,7 +197,7 @@ MEMFITS = '(old(self).max_memory is None || %s + value.mem() <= old(self).max_me
 INSERTM_REQ = INSERT_REQ
 INSERTM_ENS = [
     CFG_FRAME,
-    ('post_wf', ['C04', 'C05', 'C13', 'C01', 'C03', 'C09', 'C10', 'C11'], 'wf(%s, final(self).order@)' % M1),
+    ('post_wf', ['C04', 'C05', 'C13', 'C01', 'C03', 'C09', 'C10', 'C11', 'C07', 'C08'], 'wf(%s, final(self).order@)' % M1),
     ('stats_frame', ['C15'], 'final(self).stats == old(self).stats'),
     ('oversize_not_cached', ['C05'], '%s ==> %s == %s && final(self).order@ == %s' % (OVERSIZE, M1, MA, QA)),
     ('total_le_max', ['C05'], '(old(self).max_memory is Some && !%s) ==> a_mem_total(%s, final(self).order@) <= old(self).max_memory->Some_0' % (OVERSIZE, M1)),
@@ -243,8 +243,8 @@ UNIT = dict(
            ensures=[('replacing_in_place_iff_present_and_no_memory_bound', ['C01', 'C11', 'C03', 'C20', 'C09', 'C10', 'C04'], 'r == (old(cache)@.contains_key(s2s(key)) && max_memory is None)'),
                     ('stale_dropped', ['C01', 'C11', 'C04', 'C03', 'C05', 'C20'], 'max_memory is Some ==> final(cache)@ == old(cache)@.remove(s2s(key))'),
                     ('replaced_in_place_never_absent', ['C03', 'C01', 'C20'], 'max_memory is None ==> final(cache)@ == old(cache)@'),
-                    ('unqueued', ['C01', 'C11', 'C04', 'C07', 'C20'], 'final(order)@ == rm1(old(order)@, s2s(key))'),
-                    ('post_wf', ['C04', 'C01', 'C03', 'C09', 'C10', 'C11'], 'wf(final(cache)@.remove(s2s(key)), final(order)@)')]),
+                    ('unqueued', ['C01', 'C11', 'C04', 'C07', 'C08', 'C13', 'C05', 'C20'], 'final(order)@ == rm1(old(order)@, s2s(key))'),
+                    ('post_wf', ['C04', 'C01', 'C03', 'C09', 'C10', 'C11', 'C05', 'C07', 'C08', 'C13'], 'wf(final(cache)@.remove(s2s(key)), final(order)@)')]),
         fn('find_min_frequency_key', split_self=True, ret='res',
            ensures=[FIND_FRAME,
                     ('argmin_hits', ['C08'], 'res is Some ==> a_is_min_hits(old(cache)@, order@, res->Some_0)'),
